@@ -472,7 +472,6 @@ class ConstBitStream(Bits):
     def fromstring(cls: TBits, s: str, /) -> TBits:
         x = super().fromstring(s)
         x._pos = 0
-        x._bitstore.immutable = True
         return x
 
     @overload
